@@ -21,6 +21,7 @@ EXPLANATION = (
     "it unchanged, both arms of the back-end switch bind the same names. NOT decided: the regex / recursive "
     "descent grammar as a whole, rejection of impossible dates (delegated to datetime)."
     " Also: the compiled parser tests the two date/time separators 'T' and ' ' together wherever it tests one, and skips the digits beyond the sixth at every fraction site."
+    " As built (value rules on the compiled parser): RSISO.tabulated evaluates the MIR of python::parsing::parse_iso8601 and of everything it reaches (Parser::new / parse / parse_datetime / parse_time / parse_integer / iso_to_ymd / ordinal_to_ymd, the calendar helpers and tables) with the checker's MIR evaluator pvs/mirexec.py on the table of PYISO.tabulated; the pyo3 constructors stand for the standard library's date / time / datetime. Two strings are excluded with the reason (a year alone, a basic time without T: the compiled parser leaves them to parse()'s common fallback, with the same outcome in both back ends). RSWEEK.tabulated evaluates the path summaries of iso_to_ymd on (year, week, weekday) triples. In the offset tabulation a valid offset that no accepting path admits counts as rejected."
 )
 
 
@@ -928,8 +929,8 @@ def _rs_iso_tabulate(ctx, mir) -> None:
     ctx.ob("RSISO.tabulated", "rs:parse_iso8601", not bad, f"{n} strings evaluated on the MIR of the compiled parser: " + ("; ".join(bad[:3]) if bad else
            "every accepted string yields the value it denotes, every malformed one a ValueError"), rel)
     if not bad:
-        for fam, cons in ((("CUMSEARCH.forward", "WEEKDATE", "FRACTION", "OFFSET.parse", "RSWEEK"), "rs:"),):
-            ctx.established(fam, cons, "RSISO.tabulated")
+        for cons in ("rs:ordinal_to_ymd", "rs:iso_to_ymd", "rs:parse_time"):
+            ctx.established(("CUMSEARCH.forward", "WEEKDATE", "FRACTION", "OFFSET.parse"), cons, "RSISO.tabulated")
 
 
 def _py_iso_tabulate(ctx) -> None:
